@@ -11,6 +11,7 @@ import (
 	"verif/internal/load"
 	"verif/internal/rep"
 	"verif/internal/roles"
+	"verif/internal/ssau"
 )
 
 // Ctx carries the loaded configurations for one invocation.
@@ -160,3 +161,5 @@ func globalReader(p *load.Program) func(g *ssa.Global, idx int) (*big.Int, bool)
 		return vals[idx], true
 	}
 }
+
+func qn(f *ssa.Function) string { return ssau.QName(f) }
